@@ -474,39 +474,48 @@ Eval vm_compute in (flat_map (fun p => let '(n, (a, b, c)) := p in [n; enc a; en
 
 
 def t1_obligation(ctx):
-    """Regenerate the translated functions from the current source and re-check the obligation."""
+    """Regenerate the translated functions from the current source and re-check the obligation.
+    The compilations happen here (may run in a worker thread); everything that reports through ctx is
+    returned as a list of deferred actions to be executed by the caller after the correspondence runs."""
+    acts = []
+
+    def later(f, *a, **k):
+        acts.append((f, a, k))
     gen = os.path.join(ctx.scratch, "gen")
     os.makedirs(gen, exist_ok=True)
     xq = [(gen, GEN_ROOT)]
     src = os.path.join(tr_pyfun.build_impl.REPO, tr_pyfun.REL)
     name = "T1 normalize_gen_spec holds of _normalize_slice_or_index as translated from the current source"
 
-    def broken(key, what, extra):
+    def broken_now(key, what, extra):
         ctx.obligation(name, False, what[:300])
         if any(not v[2] for v in ctx.violations):
             return          # a concrete failing input has already been reported by this run
         ctx.fail(key, what, dict(kind="translated-obligation-broken", source=src, **extra), no_input=True)
+
+    def broken(key, what, extra):
+        later(broken_now, key, what, extra)
 
     try:
         text = tr_pyfun.translate(src)
     except (tr_pyfun.Unsupported, SyntaxError, OSError, AssertionError, IndexError, AttributeError) as e:
         broken("t1/translator", "translator T1 cannot read _normalize_slice_or_index/_removed_items any more: %s" % e,
                dict(error=str(e)))
-        return
+        return acts
     path = os.path.join(gen, "NormalizeGen.v")
     open(path, "w").write(text)
     rc, out, err, _ = coqrun.coqc(path, outdir=gen, extra_q=xq)
     if rc != 0:
         broken("t1/generated-ill-typed", "the translated definitions do not type-check: %s" % (out + err)[-400:],
                dict(generated=text, log=(out + err)[-1500:]))
-        return
+        return acts
     ctx.cov["translated_from_source"] = dict(file=tr_pyfun.REL, functions=["_normalize_slice_or_index", "_removed_items"])
     rc_r, out_r, err_r, _ = coqrun.run_script(gen, "Stage1R.v", STAGE1R, extra_q=xq)
     rc1, out1, err1, _ = coqrun.run_script(gen, "Stage1.v", STAGE1, extra_q=xq)
     if rc1 == 0 and rc_r == 0:
-        ctx.obligation(name, True, "stage 1: generated definitions = committed reference C05/Normalize.v "
+        later(ctx.obligation, name, True, "stage 1: generated definitions = committed reference C05/Normalize.v "
                                    "(reflexivity); theorems of C05/Props.v are about the current source text")
-        return
+        return acts
     stage2 = False
     if rc_r == 0:
         proof = open(os.path.join(coqrun.COQDIR, "C05", "NormProof.v")).read()
@@ -530,18 +539,19 @@ def t1_obligation(ctx):
             cases.append(dict(vk="VAll", target=tgt, init=init, ops=[["DelSlice", s]]))
             cases.append(dict(vk="VAll", target=tgt, init=init, ops=[["SetSlice", s, list(range(90, 90 + cnt))]]))
     if cases:
-        hist.run(ctx, DRIVER, cases, to_term, HEADER, CASE_T, key_fn, describe, nontrivial,
-                 relation="T1 witnesses replayed on a real TraitList", tag="t1wit", do_shrink=False)
+        later(hist.run, ctx, DRIVER, cases, to_term, HEADER, CASE_T, key_fn, describe, nontrivial,
+              relation="T1 witnesses replayed on a real TraitList", tag="t1wit", do_shrink=False)
     if stage2 and not wit:
-        ctx.obligation(name, True, "stage 2: generated definition differs from the reference but the committed proof "
+        later(ctx.obligation, name, True, "stage 2: generated definition differs from the reference but the committed proof "
                                    "of normalize_gen_spec replays against it")
         broken("t1/reference-outdated", "the source of _normalize_slice_or_index changed: normalize_gen_spec still "
                "holds of the translated text, but the model C05/Normalize.v is no longer that text "
                "(regenerate it and re-run)", dict(generated=text))
-        return
+        return acts
     broken("t1/normalize_gen_spec", "the function translated from the current source no longer satisfies "
            "normalize_gen_spec / differs from the reference (witness slices %r)" % (wit[:3],),
            dict(generated=text, witnesses=wit, stage1=(out1 + err1)[-800:], stage1_removed=(out_r + err_r)[-800:]))
+    return acts
 
 
 # ---------------------------------------------------------------- run
@@ -550,8 +560,34 @@ def hist_args():
                 nontrivial=nontrivial)
 
 
+def start_proofs(ctx, props):
+    """Re-check the Props file(s) in a worker thread while the correspondence runs; returns join() -> (ok, log)."""
+    import threading
+    coqrun.ensure_built(targets=[f[:-2] + ".vo" for f in props] + [os.path.dirname(props[0]) + "/Corr.vo"])
+    res = {}
+
+    def work():
+        try:
+            res["r"] = ctx.proofs(props)
+        except Exception as e:  # noqa
+            res["r"] = (False, "proof check crashed: %r" % (e,))
+    th = threading.Thread(target=work)
+    th.start()
+
+    def join():
+        th.join()
+        return res["r"]
+    return join
+
+
 def run(ctx):
-    ok, log = ctx.proofs(PROPS)
+    join_proofs = start_proofs(ctx, PROPS)
+    t1 = {}
+    if not ctx.replay:
+        import threading
+        ctx.build_impl()
+        t1_thread = threading.Thread(target=lambda: t1.update(acts=t1_obligation(ctx)))
+        t1_thread.start()
     ctx.cov["trusted_base"] += [
         "tools/drivers/c05_driver.py (atom <-> Python value mapping, recording notifier, canonical encoding) and "
         "tools/props/c05.py (generator, grid enumeration)",
@@ -571,7 +607,7 @@ def run(ctx):
         rep = json.load(open(ctx.replay))["replay"]
         cases = [rep["case"]] if "case" in rep else []
     else:
-        n, maxops, maxinit = (1300, 10, 8) if ctx.tier == "quick" else (20000, 30, 30)
+        n, maxops, maxinit = (700, 10, 8) if ctx.tier == "quick" else (20000, 30, 30)
         cases = corpus() + [gen_case(rnd, ctx, maxops, maxinit) for _ in range(n)]
     for c in cases[:2] + cases[-2:]:
         ctx.sample(c)
@@ -582,9 +618,9 @@ def run(ctx):
         if ctx.tier == "quick":
             # a slice of the grid: index bound 3, lengths 0..4, one validator per length drawn from the seed
             cfgs = [dict(target=rnd.choice(["plain", "obj"]), vk=rnd.choice(["VAll", "VInt", "VCInt"]), n=n)
-                    for n in range(0, 5)]
+                    for n in sorted(rnd.sample(range(0, 6), 3))]
             total = run_grid(ctx, cfgs, 3, 250, "C05 single-operation grid (quick slice)", hist_kw=hist_args())
-            run_indices(ctx, range(0, 5), 4, 500)
+            run_indices(ctx, range(0, 4), 3, 500)
         else:
             cfgs = [dict(target=t, vk=vk, n=n) for n in range(0, 6)
                     for (t, vk) in (("plain", "VAll"), ("plain", "VInt"), ("plain", "VCInt"), ("obj", "VCInt"),
@@ -594,5 +630,10 @@ def run(ctx):
             ctx.cov["exhaustive"] = ("single operations: lengths 0-5, int indices -8..8, slices start/stop in "
                                      "{None,-8..8}, step in {None,+-1..+-4,0}, 9 replacement lists, 5 target/validator "
                                      "configurations: %d cases" % total)
-        t1_obligation(ctx)
+        t1_thread.join()
+        for f, a, k in t1.get("acts", []):
+            f(*a, **k)
+        if "acts" not in t1:
+            ctx.fail("t1/crash", "the T1 obligation could not be evaluated", dict(), no_input=True)
+    ok, log = join_proofs()
     proof_gate(ctx, ok, log, PROPS)
